@@ -19,10 +19,67 @@ def moduleOf? (name : String) (rg col page : Nat) : Option Module :=
   | "offsetIndex" => some (.offsetIndex rg col)
   | _ => none
 
+def typeName : ModType → String
+  | .footer => "footer" | .columnMeta => "columnMeta" | .dataPage => "dataPage" | .dataPageHeader => "dataPageHeader"
+  | .dictPage => "dictPage" | .dictPageHeader => "dictPageHeader" | .bloomHeader => "bloomHeader" | .bloomBits => "bloomBits"
+  | .columnIndex => "columnIndex" | .offsetIndex => "offsetIndex"
+
+/-- `kind:rg:col:page` of a slot (ordinals the slot does not carry are 0) -/
+def slotText : Module → String
+  | .footer => "footer:0:0:0"
+  | .columnMeta rg col => s!"columnMeta:{rg}:{col}:0"
+  | .dataPageHeader rg col p => s!"dataPageHeader:{rg}:{col}:{p}"
+  | .dataPage rg col p => s!"dataPage:{rg}:{col}:{p}"
+  | .dictPageHeader rg col => s!"dictPageHeader:{rg}:{col}:0"
+  | .dictPage rg col => s!"dictPage:{rg}:{col}:0"
+  | .bloomHeader rg col => s!"bloomHeader:{rg}:{col}:0"
+  | .bloomBits rg col => s!"bloomBits:{rg}:{col}:0"
+  | .columnIndex rg col => s!"columnIndex:{rg}:{col}:0"
+  | .offsetIndex rg col => s!"offsetIndex:{rg}:{col}:0"
+
+def wevText (e : WEv) : String :=
+  let ords := if e.used.ords.isEmpty then "-" else ".".intercalate (e.used.ords.map toString)
+  let fu := match e.fu with | some g => toString g | none => "n"
+  s!"{slotText e.slot}:{typeName e.used.t}:{ords}:{fu}"
+
+def parseCols? (s : String) : Option (List Nat) := parseList? parseNat? s
+
+/-- one step of a writer history: `w` | `p:<col>` | `f:<cols>` | `cw:<id>` | `cp:<id>:<col>` |
+    `c:<id>:<cols of the writer's own row group>:<cols of the row group>` | `r` -/
+def parseWOp? (s : String) : Option WOp :=
+  match s.splitOn ":" with
+  | ["w"] => some .write
+  | ["r"] => some .reset
+  | ["p", c] => (parseNat? c).map .page
+  | ["f", cs] => (parseCols? cs).map .flush
+  | ["cw", i] => (parseNat? i).map .cwrite
+  | ["cp", i, c] => match parseNat? i, parseNat? c with
+    | some i, some c => some (.cpage i c)
+    | _, _ => none
+  | ["c", i, a, b] => match parseNat? i, parseCols? a, parseCols? b with
+    | some i, some a, some b => some (.commit i a b)
+    | _, _, _ => none
+  | _ => none
+
 /-- `aad <prefix hex> <fileid hex> <module type> <rg> <col> <page>` -> `ok <aad hex>`
-    (ordinals a module type does not carry are ignored) -/
+    (ordinals a module type does not carry are ignored)
+
+    `aad.wrun <ncols> <dict cols> <bloom cols> <reread cols> <plain footer 0/1> <op> ...` ->
+    `ok <generation> <row groups> <pages re-opened> <all re-opens equal their sealing 0/1> <event,...>`:
+    the writer state machine of `Aad.lean` run on the history and closed (`wclose`); an event is
+    `kind:rg:col:page:<module type passed>:<ordinals passed, dot separated>:<identifier generation | n>` -/
 def handle (toks : List String) : Option String :=
   match toks with
+  | "aad.wrun" :: ncols :: dict :: bloom :: reread :: plain :: ops => some <|
+    match parseNat? ncols, parseCols? dict, parseCols? bloom, parseCols? reread, parseNat? plain, ops.mapM parseWOp? with
+    | some ncols, some dict, some bloom, some reread, some plain, some ops =>
+      let cfg : WCfg := { ncols := ncols, dict := fun c => dict.contains c, bloom := fun c => bloom.contains c,
+                          plainFooter := plain != 0, reread := fun c => reread.contains c }
+      let s := wrun cfg ops
+      let closed := wflush cfg s []
+      let re := closed.reopened
+      s!"ok {closed.gen} {closed.nrg} {re.length} {if re.all (fun ab => ab.1 == ab.2) then 1 else 0} {showList wevText (wclose cfg s)}"
+    | _, _, _, _, _, _ => "bad-op"
   | ["aad", pfx, fu, name, rg, col, page] => some <|
     match parseHex? pfx, parseHex? fu, parseNat? rg, parseNat? col, parseNat? page with
     | some pfx, some fu, some rg, some col, some page =>
